@@ -223,4 +223,12 @@ CHECKS = {
     "C02": {"build": vcore_build, "steps": c02_steps, "replay": c02_replay, "level": "exploration"},
     "C01": vcore_check("c01"),
     "C03": vcore_check("c03"),
+    "C04": vcore_check("c04"),
+    "C05": vcore_check("c05"),
+    "C06": vcore_check("c06"),
+    "C07": vcore_check("c07", level="fault_enumeration"),
+    "C09": vcore_check("c09"),
+    "C10": vcore_check("c10"),
+    "C13": vcore_check("c13"),
+    "C14": vcore_check("c14"),
 }
